@@ -77,32 +77,6 @@ impl MetadataMap {
         ensures final(self).headers@ == old(self).headers@.insert(key@, seq![val.inner@])
     { unimplemented!() }
 }
-pub mod std {
-    pub mod str {
-        // A-std-str-02: core::str::from_utf8 (only used to build a diagnostic message)
-        pub struct Utf8Error { pub x: u8 }
-        #[verifier::external_body]
-        pub fn from_utf8(v: &[u8]) -> (r: Result<&str, Utf8Error>) { unimplemented!() }
-    }
-    pub mod io {
-        use crate::*;
-        pub struct Error { pub k: u8 }
-        // A-std-io-01: std::io::copy drains the reader into the writer: everything the reader yields is appended; a
-        // failing reader gives Err (after possibly appending a prefix)
-        #[verifier::external_body]
-        pub fn copy<R: ReadSpec>(reader: &mut R, writer: &mut Writer<'_>) -> (r: Result<u64, Error>)
-            ensures
-                old(reader).yields() matches Some(out) ==> r is Ok && (*final(writer).buf)@ == (*old(writer).buf)@ + out,
-                old(reader).yields() is None ==> r is Err,
-                (*final(writer).buf)@.len() >= (*old(writer).buf)@.len() && (*final(writer).buf)@.take((*old(writer).buf)@.len() as int) == (*old(writer).buf)@,
-                *final(final(writer).buf) == *final(old(writer).buf),
-                final(writer).buf.reserve_bound == old(writer).buf.reserve_bound,
-        { unimplemented!() }
-    }
-}
-// a reader that yields a byte string or fails
-pub trait ReadSpec { spec fn yields(&self) -> Option<Seq<u8>>; }
-pub struct Writer<'a> { pub buf: &'a mut BytesMut }
 impl BytesMut {
     // A-bytes-13: BufMut::writer wraps the buffer
     pub fn writer(&mut self) -> (r: Writer<'_>) ensures *r.buf == *old(self), *final(r.buf) == *final(self) { Writer { buf: self } }
